@@ -512,7 +512,7 @@ def agg_table(ex, df: "SymDF", key, col: str, funcs: List[str]) -> "SymDF":
     kv = to_z3(kc.val(r))
     member = to_z3(z_and(pres(r), z_not(kc.isnull(r))))
     w = REP(kv)
-    ex.facts.append(z3.ForAll(list(r), z3.Implies(member, to_z3(z_and(pres(w), z_not(kc.isnull(w)), to_z3(kc.val(w)) == kv)))))
+    ex.facts.append(z3.ForAll(list(r), z3.Implies(member, to_z3(z_and(pres(w), z_not(kc.isnull(w)), to_z3(kc.val(w)) == kv))), patterns=[rep[0](kv)] if (z3.is_app(kv) and not z3.is_const(kv) and kv.decl().kind() == z3.Z3_OP_UNINTERPRETED) else []))
 
     def present(rr):
         v = to_z3(kc.val(rr))
@@ -664,7 +664,8 @@ class SymDF:
             ex.facts.append(n >= 0)
             ex.facts.append(z3.Implies(n > 0, to_z3(self.present(w))))
             r = self.uni.skolem(f"nr{next(_uid)}")
-            ex.facts.append(z3.ForAll(list(r), z3.Implies(to_z3(self.present(r)), n > 0)))
+            pr = to_z3(self.present(r))
+            ex.facts.append(z3.ForAll(list(r), z3.Implies(pr, n > 0)))
             cache[key] = (n, self.present)
         return cache[key][0]
 
